@@ -24,7 +24,18 @@ ImplDriftProbe(e) ==
   IF ~AllConstsHaveValues(s) THEN {} ELSE
   IF \A k \in 1..Len(io) : LET ic == ImplCan(e.rule, e.opt, s, PathTo(e.hb, io[k])) IN ic = "unmodelled" \/ (ic = "yes") = e.a1[k]
   THEN {} ELSE {"drift_impl_probe"}
-Verdict(e) == CASE e.typ = "step" -> StepVerdict(e, FV, FS, FR) \cup ImplDriftStep(e) [] e.typ = "probe" -> ProbeVerdict(e) \cup ImplDriftProbe(e) [] e.typ = "print" -> PrintVerdict(e) [] e.typ = "reprobe" -> ReprobeVerdict(e) [] OTHER -> {"harness_unknown_event"}
+\* a fold that creates a constant the projection cannot hold exactly is judged against the exact big-rational value
+\* of c1 op c2: the one new constant of the result must agree with it to 12 significant digits
+FoldRounding(e) ==
+  IF e.rule # "fold" \/ e.outcome # "ok" \/ e.res = 0 \/ ~WFExpr(e.hb, e.work) \/ WFExprFailing(e.ha, e.res) # {} THEN {} ELSE
+  LET s == TermOf(e.hb, e.work)  o == TermOf(e.ha, e.res)  path == PathTo(e.hb, e.node)
+      consts(t) == {x \in SubtermSet(t) : x.k = "c"}
+      new == consts(o) \ consts(s)
+      ex == FoldExact(s, path) IN
+  IF ~InexactNew(s, o) \/ ~ex.ok \/ Cardinality(new) # 1 THEN {} ELSE
+  LET a == ConstBQ(CHOOSE x \in new : TRUE) IN
+  IF ~a.ok THEN {} ELSE IF ApproxSame(ex, a, 12) THEN {"note_fold_within_rounding"} ELSE {"value"}
+Verdict(e) == CASE e.typ = "step" -> StepVerdict(e, FV, FS, FR) \cup ImplDriftStep(e) \cup (IF FV THEN FoldRounding(e) ELSE {}) [] e.typ = "probe" -> ProbeVerdict(e) \cup ImplDriftProbe(e) [] e.typ = "print" -> PrintVerdict(e) [] e.typ = "reprobe" -> ReprobeVerdict(e) [] OTHER -> {"harness_unknown_event"}
 VARIABLES i, v
 Init == i \in 1..N /\ v = {"pending"}
 Next == v = {"pending"} /\ v' = Verdict(Events[i]) /\ UNCHANGED i
